@@ -136,3 +136,8 @@ mod tests {
         Ok(())
     }
 }
+
+#[cfg(rustradio_verif)]
+pub mod verif_access {
+    include!(concat!(env!("RUSTRADIO_VERIF_DIR"), "/access/single_pole_iir_filter.rs"));
+}
